@@ -1,6 +1,6 @@
 (* C04 correspondence: observed behaviour of an in-process frps (real server.Service, scripted peers)
    against Model/Auth.v, step by step, plus property monitors evaluated on the observed trace alone. *)
-From FRP Require Export Corr.Common Model.Auth.
+From FRP Require Export Corr.Common Model.Auth Model.SshGate.
 Open Scope Z_scope.
 
 (* ---- observation classes (what the scripted peer and the verif accessor saw) ------------------
@@ -63,7 +63,13 @@ Definition c4CFG m token scopes maxpool hb : au_cfg :=
   {| ac_method := m; ac_token := token; ac_scopes := scopes; ac_max_pool := maxpool; ac_hb_timeout := hb |}.
 
 Inductive case :=
-| CAuth (cfg : au_cfg) (hash_tab : list (Z * bytes)) (oidc_tab : list (bytes * option (bytes * Z))) (steps : list c04_step).
+| CAuth (cfg : au_cfg) (hash_tab : list (Z * bytes)) (oidc_tab : list (bytes * option (bytes * Z))) (steps : list c04_step)
+(* one ssh connection to the tunnel gateway of a fresh frps (driver sshgw): configuration of authorized_keys, the ssh
+   authentication attempts the peer makes in order, --token / --user of the command line, the virtual client's login
+   timestamp and pool count (oracles), and what was seen: ssh handshake accepted, session in the table, proxy
+   registered, that session's always-pass flag, session table size *)
+| CSsh (cfg : au_cfg) (hash_tab : list (Z * bytes)) (keys : sg_keys) (attempts : list sg_attempt)
+       (cmd_token cmd_user : bytes) (ts pool : Z) (ssh_ok session proxy pass : bool) (nsessions : Z).
 
 (* ---- oracles from tables ------------------------------------------------------------------------ *)
 
@@ -256,9 +262,24 @@ Fixpoint c04_monitor (cfg : au_cfg) (H : bytes -> Z -> bytes) (oi : bytes -> Z -
       else c04_monitor cfg H oi (cs_snap st) (i + 1) r
   end.
 
+(* monitor for the ssh gateway, from the case data alone: a session (or a proxy) only for an authorised key or the right token *)
+Definition c04_ssh_key_authorised (keys : sg_keys) (attempts : list sg_attempt) : bool :=
+  match keys with
+  | SgFile l => existsb (fun a => match a with
+                                  | SgPublicKey k true => match sg_lookup k l with Some _ => true | None => false end
+                                  | _ => false end) attempts
+  | _ => false
+  end.
+
+Definition c04_ssh_monitor (cfg : au_cfg) (keys : sg_keys) (attempts : list sg_attempt) (cmd_token : bytes)
+  (session proxy : bool) (nsessions : Z) : Z :=
+  if (session || proxy || (0 <? nsessions)) &&
+     negb (c04_ssh_key_authorised keys attempts || bytes_eqb cmd_token (ac_token cfg)) then 18 else 0.
+
 Definition C04_holds (c : case) : bool :=
   match c with
   | CAuth cfg ht ot steps => c04_monitor cfg (c04_H cfg ht) (c04_oidc ot) c04_empty_snap 0 steps =? 0
+  | CSsh cfg _ keys attempts cmd_token _ _ _ _ session proxy _ n => c04_ssh_monitor cfg keys attempts cmd_token session proxy n =? 0
   end.
 
 (* 0 = model and implementation agree and the monitors hold; 99 = oracle tables incomplete (harness bug);
@@ -271,6 +292,23 @@ Definition check_case_full (c : case) : Z :=
         let m := c04_monitor cfg (c04_H cfg ht) (c04_oidc ot) c04_empty_snap 0 steps in
         if negb (m =? 0) then m
         else c04_walk cfg (c04_H cfg ht) (c04_oidc ot) au_init 0 steps
+  | CSsh cfg ht keys attempts cmd_token cmd_user ts pool ssh_ok session proxy pass n =>
+      (* reasons: 18 monitor (session without authorised key or right token) | 21 ssh handshake outcome differs |
+         22 session / no session differs | 23 proxy registered differs | 24 always-pass flag differs | 25 table size *)
+      if negb (match c04_hash_lookup ts ht with Some _ => true | None => false end) then 99
+      else
+        let m := c04_ssh_monitor cfg keys attempts cmd_token session proxy n in
+        if negb (m =? 0) then 100 + m
+        else
+          let '(s', o) := sg_step (c04_H cfg ht) (fun _ _ => None) cfg keys au_init 0 0 [x67] attempts cmd_token cmd_user ts pool in
+          let m_ssh := match o with SgRefusedAtSsh => false | _ => true end in
+          let m_sess := match o with SgForwarded (AuOLoginOk _ _) => true | _ => false end in
+          if negb (Bool.eqb m_ssh ssh_ok) then 121
+          else if negb (Bool.eqb m_sess session) then 122
+          else if negb (Bool.eqb m_sess proxy) then 123
+          else if m_sess && negb (Bool.eqb (sg_always_pass keys) pass) then 124
+          else if negb (Z.of_nat (length (at_sessions s')) =? n) then 125
+          else 0
   end.
 
 (* the reason alone (stable key for reports); the failing step is [check_case_full c / 100 - 1] *)
@@ -278,18 +316,18 @@ Definition check_case (c : case) : Z := check_case_full c mod 100.
 
 (* ---- counters for the evidence: which model branches the cases reached ------------------------------ *)
 Definition c04_case_codes (c : case) : list Z :=
-  match c with CAuth _ _ _ steps => map cs_code steps end.
+  match c with CAuth _ _ _ steps => map cs_code steps | CSsh _ _ _ _ _ _ _ _ _ _ _ _ _ => [] end.
 Definition c04_count_code (z : Z) (l : list case) : Z :=
   fold_left (fun acc c => acc + count_if (fun x => x =? z) (c04_case_codes c)) l 0.
 Definition c04_count_codes_in (lo hi : Z) (l : list case) : Z :=
   fold_left (fun acc c => acc + count_if (fun x => (lo <=? x) && (x <=? hi)) (c04_case_codes c)) l 0.
 Definition c04_count_internal_pass (l : list case) : Z :=
-  fold_left (fun acc c => match c with CAuth _ _ _ steps =>
+  fold_left (fun acc c => match c with CSsh _ _ _ _ _ _ _ _ _ _ _ _ _ => acc | CAuth _ _ _ steps =>
      acc + count_if (fun st => match cs_event st with
                                | AuEFirst true _ _ _ (AuFLogin lg) => asp_always_pass (al_spec lg) && (cs_code st =? 1)
                                | _ => false end) steps end) l 0.
 Definition c04_count_network_claim (l : list case) : Z :=
-  fold_left (fun acc c => match c with CAuth _ _ _ steps =>
+  fold_left (fun acc c => match c with CSsh _ _ _ _ _ _ _ _ _ _ _ _ _ => acc | CAuth _ _ _ steps =>
      acc + count_if (fun st => match cs_event st with
                                | AuEFirst false _ _ _ (AuFLogin lg) => asp_always_pass (al_spec lg) && negb (cs_code st =? 1)
                                | _ => false end) steps end) l 0.
@@ -297,7 +335,7 @@ Definition c04_count_network_claim (l : list case) : Z :=
 (* a token that WAS valid (table entry with a subject) presented at or after the step it stopped being valid,
    and refused (login 14, work connection 35, ping 45) *)
 Definition c04_count_expired_refused (l : list case) : Z :=
-  fold_left (fun acc c => match c with CAuth cfg _ ot steps =>
+  fold_left (fun acc c => match c with CSsh _ _ _ _ _ _ _ _ _ _ _ _ _ => acc | CAuth cfg _ ot steps =>
      match ac_method cfg with
      | AuToken => acc
      | AuOidc =>
@@ -313,8 +351,35 @@ Definition c04_count_expired_refused (l : list case) : Z :=
 Definition c04_is_rewrite (e : au_event) : bool :=
   match e with AuEFirst _ _ _ _ (AuFWorkConn _ _ _ (AuPlugRewrite _ _)) => true | _ => false end.
 Definition c04_count_rewrite_refused (l : list case) : Z :=
-  fold_left (fun acc c => match c with CAuth _ _ _ steps =>
+  fold_left (fun acc c => match c with CSsh _ _ _ _ _ _ _ _ _ _ _ _ _ => acc | CAuth _ _ _ steps =>
      acc + count_if (fun st => c04_is_rewrite (cs_event st) && (30 <=? cs_code st) && (cs_code st <=? 38)) steps end) l 0.
 Definition c04_count_rewrite_pooled (l : list case) : Z :=
-  fold_left (fun acc c => match c with CAuth _ _ _ steps =>
+  fold_left (fun acc c => match c with CSsh _ _ _ _ _ _ _ _ _ _ _ _ _ => acc | CAuth _ _ _ steps =>
      acc + count_if (fun st => c04_is_rewrite (cs_event st) && (cs_code st =? 2)) steps end) l 0.
+
+(* ---- ssh gateway counters --------------------------------------------------------------------------------- *)
+Definition c04_ssh_count (p : sg_keys -> list sg_attempt -> bytes -> au_cfg -> bool -> bool -> bool) (l : list case) : Z :=
+  count_if (fun c => match c with
+                     | CSsh cfg _ keys attempts tok _ _ _ ssh_ok session _ _ _ => p keys attempts tok cfg ssh_ok session
+                     | _ => false end) l.
+Definition c04_starts_with_publickey (a : list sg_attempt) : bool :=
+  match a with SgPublicKey _ _ :: _ => true | _ => false end.
+(* the attack of the batch-3 seed: no keys file, straight to publickey, wrong/no token -> must not get a session *)
+Definition c04_ssh_attack_refused := c04_ssh_count (fun keys a tok cfg ssh_ok session =>
+  sg_no_client_auth keys && c04_starts_with_publickey a && negb (bytes_eqb tok (ac_token cfg)) && negb session).
+Definition c04_ssh_session_by_key := c04_ssh_count (fun keys a tok cfg ssh_ok session =>
+  session && c04_ssh_key_authorised keys a && negb (bytes_eqb tok (ac_token cfg))).
+Definition c04_ssh_session_by_token := c04_ssh_count (fun keys a tok cfg ssh_ok session =>
+  session && sg_no_client_auth keys && bytes_eqb tok (ac_token cfg)).
+Definition c04_ssh_refused_at_ssh := c04_ssh_count (fun keys a tok cfg ssh_ok session => negb ssh_ok).
+Definition c04_ssh_refused_at_login := c04_ssh_count (fun keys a tok cfg ssh_ok session => ssh_ok && negb session).
+
+(* cases whose configured token is empty (token method) and in which a login with a non-matching key was refused *)
+Definition c04_count_empty_token_refused (l : list case) : Z :=
+  fold_left (fun acc c => match c with
+     | CAuth cfg _ _ steps =>
+         match ac_method cfg, ac_token cfg with
+         | AuToken, [] => acc + count_if (fun st => (cs_code st =? 11) || (cs_code st =? 33) || (cs_code st =? 42)) steps
+         | _, _ => acc
+         end
+     | _ => acc end) l 0.
